@@ -1,6 +1,7 @@
 import ast
 import itertools
 import os
+import re
 import types
 from ast import unparse
 from collections.abc import Callable, Iterable
@@ -42,7 +43,7 @@ from basilisp.lang.compiler.optimizer import PythonASTOptimizer
 from basilisp.lang.interfaces import ISeq
 from basilisp.lang.runtime import BasilispModule
 from basilisp.lang.typing import CompilerOpts, ReaderForm
-from basilisp.lang.util import genname
+from basilisp.lang.util import advance_name_id, genname
 from basilisp.util import Maybe
 
 _DEFAULT_FN = "__lisp_expr__"
@@ -141,6 +142,31 @@ def _flatmap_forms(forms: Iterable[ReaderForm]) -> Iterable[ReaderForm]:
 
 
 _sentinel = object()
+
+# The numeric suffix `genname` gives every generated name
+_GENERATED_NAME_ID = re.compile(r"_(\d+)$")
+
+
+def _max_generated_name_id(code: types.CodeType) -> int:
+    """Return the largest numeric suffix of any name used by `code` or by the code
+    objects nested in it."""
+    names = itertools.chain(
+        code.co_names, code.co_varnames, code.co_cellvars, code.co_freevars
+    )
+    own = max(
+        (
+            int(m.group(1))
+            for name in names
+            if (m := _GENERATED_NAME_ID.search(name)) is not None
+        ),
+        default=0,
+    )
+    nested = (
+        _max_generated_name_id(const)
+        for const in code.co_consts
+        if isinstance(const, types.CodeType)
+    )
+    return max(own, max(nested, default=0))
 
 
 def compile_and_exec_form(
@@ -294,6 +320,13 @@ def compile_bytecode(
     compiled within a bootstrapped module. This function bootstraps the module
     and then proceeds to compile a collection of bytecodes into the module."""
     _bootstrap_module(gctx, optimizer, module)
+
+    # The cached code defines globals under names generated by the process which
+    # compiled it. Code compiled into this module later in this process (`load`, `eval`,
+    # possibly while the cached code is still running) must not be given the same names,
+    # so the name counter is moved past all of them first.
+    advance_name_id(max(map(_max_generated_name_id, code), default=0))
+
     for bytecode in code:
         exec(  # pylint: disable=exec-used  # noqa S102  # nosec 6102
             bytecode, module.__dict__
